@@ -1435,12 +1435,13 @@ func (client *client) pollInflights() (cont bool, err error) {
 }
 
 func (client *client) pollNewMessages(ids []packets.PacketID) (unused []packets.PacketID, err error) {
-	now := time.Now()
 	var elems []*queue.Elem
+	// Read blocks until there are messages to send.
 	elems, err = client.queueStore.Read(ids)
 	if err != nil {
 		return nil, err
 	}
+	now := time.Now()
 	for _, v := range elems {
 		switch m := v.MessageWithID.(type) {
 		case *queue.Publish:
